@@ -181,6 +181,8 @@ def build_files(n, es, kinds, ns, real, spelling="attribute"):
                         f2["default"] = [] if kind != "array" else {}
                     fields.append(f2)
             d["fields"] = fields
+        if "errors" in spelling and i > 0 and d["type"] == "record":
+            d["type"] = "error"  # the other spelling of a record
         files[full(i, ns)] = d
     return files
 
@@ -209,7 +211,7 @@ def inline_first_use(files, root):
         done.add(fn)
         d = copy.deepcopy(files[fn])
         space = d.get("namespace", d["name"].rsplit(".", 1)[0] if "." in d["name"] else "")
-        if d["type"] == "record":
+        if d["type"] in ("record", "error"):
             d["fields"] = [dict(f, type=walk(f["type"], space)) for f in d["fields"]]
         return d
 
@@ -281,7 +283,7 @@ def check_repo(fa, res, tmpdir, n, es, kinds, ns, real, seen, tier, layout="plai
     from fastavro._schema_common import UnknownType
     from fastavro.repository.base import SchemaRepositoryError
 
-    files = build_files(n, es, kinds, ns, real, layout if layout in ("dotted-name", "with-defaults", "with-defaults-reversed", "reversed") else "attribute")
+    files = build_files(n, es, kinds, ns, real, layout if layout in ("dotted-name", "with-defaults", "with-defaults-reversed", "reversed", "errors", "errors-reversed") else "attribute")
     root = full(0, ns)
     ident = json.dumps([n, es, kinds, ns, real, layout])
     if ident in seen:
@@ -322,6 +324,22 @@ def check_repo(fa, res, tmpdir, n, es, kinds, ns, real, seen, tier, layout="plai
     if got_canon != want_canon:
         res.add(Violation("c19.canonical", "canonical-form-differs", f"load_schema canonical form {got_canon!r} != inlined-at-first-use {want_canon!r} | {short(info, 400)}", info))
         return
+    if layout == "plain":
+        # the same file named the other ways a caller may name it: a bare name relative to the working directory, "./name"
+        here = os.getcwd()
+        try:
+            os.chdir(d)
+            for spelled in (root + ".avsc", "./" + root + ".avsc", os.path.join("..", "repo", root + ".avsc")):
+                res.evals += 1
+                try:
+                    c3 = canon_of(fa, fa.schema.load_schema(spelled))
+                except Exception as e:
+                    c3 = f"raised {type(e).__name__}: {e}"
+                if c3 != want_canon:
+                    res.add(Violation("c19.load", "path-spelling-differs", f"load_schema({spelled!r}) from inside the directory -> {c3[:200]!r} | {short(info, 300)}", dict(info, path_spelling=spelled)))
+                    break
+        finally:
+            os.chdir(here)
     data = [x for x, c in alphabet.data_for(node, defs, 1, hints=False, big=False)][:12]
     for x in data:
         res.evals += 1
@@ -444,6 +462,11 @@ def run_unit(unit, tier):
             if es:
                 for real in reals[:60:2]:
                     check_repo(fa, res, tmpdir, n, es, kinds, ns, real, seen, tier, layout="with-defaults")
+            if any(kinds[i] == "record" for i in range(1, n)):
+                for real in reals[:60:2]:
+                    check_repo(fa, res, tmpdir, n, es, kinds, ns, real, seen, tier, layout="errors")
+                for real in reals[:30:3]:
+                    check_repo(fa, res, tmpdir, n, es, kinds, ns, real, seen, tier, layout="errors-reversed")
             if len(es) >= 2:
                 for real in reals[:60:2]:
                     check_repo(fa, res, tmpdir, n, es, kinds, ns, real, seen, tier, layout="with-defaults-reversed")
